@@ -349,7 +349,64 @@ def state_rt(case):
   return {'outcome': kind, 'nontrivial': True}
 
 
-SUBS = {'arrays': arrays, 'bytes_arrays': bytes_arrays, 'scalars': scalars, 'unsupported': unsupported,
+def checkpoint_api(case):
+  """All sequences of save_checkpoint(round, state) up to a depth: load_latest_checkpoint returns what was saved
+  last for the numerically largest round, and at most `keep` checkpoints remain (reference: a dict)."""
+  import jax.numpy as jnp
+  from fedjax.training import checkpoint
+  keep, depth = case['keep'], case['depth']
+  states = {
+      'sA': {'w': jnp.arange(3, dtype=jnp.float32), 'h': np.float16(1.5), 'n': 7},
+      'sB': {'w': jnp.arange(3, dtype=jnp.float32) * -2, 'h': np.float16(-0.5), 'n': 8},
+      'sC': {'w': jnp.ones((2, 2), jnp.bfloat16), 'h': np.float16(0), 'n': -1},
+  }
+  rounds = [None, 1, 2, 10]
+  ops = [(r, k) for r in rounds for k in states]
+  seqs = [tuple(tuple(o) for o in case['ops'])] if 'ops' in case else itertools.chain.from_iterable(
+      itertools.product(ops, repeat=d) for d in range(1, depth + 1))
+  evals = trans = 0
+  for seq in seqs:
+    tmp = tempfile.mkdtemp(prefix='c16c_')
+    try:
+      require(checkpoint.load_latest_checkpoint(tmp) is None, 'empty directory does not give None')
+      model = {}
+      for i, (r, k) in enumerate(seq):
+        nc = dict(case, ops=[list(o) for o in seq[:i + 1]])
+        if r is None:
+          checkpoint.save_checkpoint(tmp, states[k], keep=keep)
+          rr = 0
+        else:
+          checkpoint.save_checkpoint(tmp, states[k], r, keep)
+          rr = r
+        model[rr] = k
+        for old in sorted(model)[:-keep]:
+          del model[old]
+        got = checkpoint.load_latest_checkpoint(tmp)
+        require(got is not None, 'no checkpoint found after a save', case=nc)
+        st, rn = got
+        want_r = max(model)
+        require(rn == want_r, 'load_latest_checkpoint returned round %r, the newest saved round is %r' % (rn, want_r),
+                want_r, rn, case=nc)
+        try:
+          same_leaf(_plain(states[model[want_r]]), _plain(st), path='state')
+        except Violation as v:
+          raise Violation('the loaded checkpoint is not the state last saved for round %d: %s' % (want_r, v.msg),
+                          model[want_r], None, case=nc)
+        files = sorted(f for f in os.listdir(tmp) if f.startswith('checkpoint_') and len(f) == len('checkpoint_') + 8)
+        require(files == ['checkpoint_%08d' % x for x in sorted(model)], 'checkpoint files on disk differ from the last '
+                '%d saved rounds' % keep, ['checkpoint_%08d' % x for x in sorted(model)], files, case=nc)
+        trans += 1
+      evals += 1
+    finally:
+      shutil.rmtree(tmp, ignore_errors=True)
+  return {'evals': evals, 'nontrivial': True, 'outcome': [keep, depth], 'stats': {'save_load_transitions': trans}}
+
+
+def _plain(state):
+  return {k: (np.asarray(v) if hasattr(v, 'dtype') and not isinstance(v, np.generic) else v) for k, v in state.items()}
+
+
+SUBS = {'checkpoint_api': checkpoint_api, 'arrays': arrays, 'bytes_arrays': bytes_arrays, 'scalars': scalars, 'unsupported': unsupported,
         'nesting': nesting, 'sqlite_rt': sqlite_rt, 'state_rt': state_rt}
 TIMEOUTS = {k: 120 for k in SUBS}
 
@@ -380,6 +437,7 @@ def plan(ctx):
                                                                                         'complex64', 'bool', 'uint64'])
                         for l in ('C', 'F', 'strided') for sw in (False, True)
                         if not (sw and d in ('bfloat16', 'bool', 'int8', 'uint8'))])
+  ctx.run('checkpoint_api', [{'keep': k, 'depth': 3 if th else 2} for k in (1, 2, 3)])
   ctx.run('state_rt', [{'kind': 'fedavg', 'opt': o} for o in ('sgd', 'adam', 'mom')] +
           [{'kind': 'plain', 'dtype': d, 'swapped': sw} for d in ('int32', 'float64', 'bfloat16') for sw in (False, True)
            if not (sw and d == 'bfloat16')])
